@@ -350,7 +350,25 @@ def c06_e(ctx: Ctx):
             a = inline(a, ctx.env(f), depth=2)
             rk = [x for x in ast.walk(a) if isinstance(x, ast.Call) and "signac.filterparse:_root_keys" in common.targets_of(ctx, f, x)]
         if not rk:
-            out.append(ctx.inc(R, f, c, f"include_job_document={canon(a)} does not use _root_keys"))
+            # a predicate over the filter decides instead: it must look at *every* key of a (nested) mapping - a `return <result of the recursion>` inside the
+            # loop over the items answers after the first logical operator and never sees the keys that follow it
+            a2 = common.inline_at(ctx, f, a, c)
+            preds = [t for x in ast.walk(a2) if isinstance(x, ast.Call) for t in common.targets_of_funcs(ctx, f, x) if not t.module.is_dep and t.module.name.startswith("signac")]
+            early = None
+            for g in preds:
+                for lp in [n for n in body_nodes(g) if isinstance(n, ast.For) and isinstance(n.iter, ast.Call) and isinstance(n.iter.func, ast.Attribute) and n.iter.func.attr in ("items", "keys")]:
+                    for r in [x for st in lp.body for x in ast.walk(st) if isinstance(x, ast.Return) and x.value is not None]:
+                        if isinstance(r.value, ast.Constant) and r.value.value is True:
+                            continue
+                        if any(isinstance(y, ast.Call) and any(t.qual == g.qual for t in common.targets_of_funcs(ctx, g, y)) for y in ast.walk(r.value)):
+                            early = (g, r)
+            if early:
+                g, r = early
+                out.append(ctx.viol(R, g, r, f"{g.name} decides whether job documents are indexed, but `{stmt_key(r, 50)}` inside its loop over the filter's items returns the answer of the first "
+                                    "logical operator it meets: keys that follow it in the same mapping are never examined, so {'$and': [...], 'doc.d': 1} is evaluated against an index "
+                                    "without documents while {'doc.d': 1, '$and': [...]} is not - the result depends on key order", construct=f.qual + "|document-decision-scans-all-keys"))
+            else:
+                out.append(ctx.inc(R, f, c, f"include_job_document={canon(a)} does not use _root_keys"))
             continue
         arg = rk[0].args[0] if rk[0].args else None
         src = common.inline_at(ctx, f, arg, c) if arg is not None else None
@@ -783,6 +801,23 @@ def c06_m(ctx: Ctx):
     R = "C06-m"
     bi = ctx.fn("signac.project:Project._build_index")
     k = bi.qual + "|whole-document"
+    # every listed job is handed to the index - with its document or, if it has none, without: no path through the per-job loop body skips the yield
+    bcfg = ctx.cfg(bi)
+    ky = bi.qual + "|every-job-yielded"
+    lps = [n for n in bcfg.stmt_nodes() if n.kind == "for" and isinstance(n.ast, ast.For)]
+    ynodes = {i for y in body_nodes(bi) if isinstance(y, (ast.Yield, ast.YieldFrom)) for i in ctx.node_ids(bi, y)}
+    if not lps or not ynodes:
+        res.append(ctx.inc(R, bi, bi.node, "_build_index: per-job loop / yield not found", construct=ky))
+    else:
+        hd = lps[0]
+        body_first = {i for st in hd.ast.body[:1] for i in bcfg.node_ids_for(st)}
+        skip = bcfg.path(min(body_first), {hd.id}, blocked=ynodes, kinds="nx") if body_first else None
+        if skip is not None:
+            res.append(ctx.viol(R, bi, hd.ast, "a path through the per-job loop of _build_index returns to the loop head without yielding the job: such jobs (e.g. those without a document "
+                                "file) are missing from the index whenever documents are indexed, so {'doc.d': {'$exists': False}}, $not and $or over doc keys lose them",
+                                witness=bcfg.describe_path(skip), construct=ky))
+        else:
+            res.append(ctx.ok(R, bi, hd.ast, "every listed job is yielded to the index (with or without a document)", construct=ky))
     docsets = [n for n in body_nodes(bi) if isinstance(n, ast.Assign) and any(isinstance(t, ast.Subscript) and ctx.fold(t.slice, bi) == "doc" for t in n.targets)]
     if not docsets:
         res.append(ctx.inc(R, bi, bi.node, "_build_index does not file the job document under 'doc'", construct=k))
